@@ -1466,6 +1466,40 @@ def m_set_iter(it, ctx, a, m, f):
     return Iter(L(a[0]))
 
 
+# ---------------------------------------------------------------- RefCell / Cell: transparent (single-threaded interpreter, borrows are not tracked)
+@model(r'^(RefCell|Cell)::<.*>::new$')
+def m_cell_new(it, ctx, a, m, f):
+    return a[0]
+
+
+@model(r'^RefCell::<.*>::(borrow|borrow_mut|get_mut|try_borrow|try_borrow_mut)$')
+def m_refcell_borrow(it, ctx, a, m, f):
+    r = a[0]
+    if 'try_' in f:
+        return Adt('Result', 'Ok', [r])
+    return r
+
+
+@model(r'^<(cell::)?(Ref|RefMut)<.*> as (Deref|DerefMut)>::(deref|deref_mut)$')
+def m_refcell_deref(it, ctx, a, m, f):
+    r = a[0]
+    inner = r.get() if isinstance(r, Ref) else r
+    return inner if isinstance(inner, Ref) else r
+
+
+@model(r'^(RefCell|Cell)::<.*>::(into_inner|take)$')
+def m_cell_into_inner(it, ctx, a, m, f):
+    if f.endswith('::take'):
+        return m_take(it, ctx, a, m, f)
+    return a[0]
+
+
+@model(r'^ImportSpecifier::local$')
+def m_import_specifier_local(it, ctx, a, m, f):
+    sp = deref(a[0])
+    return Ref(sp.fields[0].fields, sp.fields[0].names.index('local'))
+
+
 # ---------------------------------------------------------------- std HashSet with the default hasher: iteration order is random per instance
 def _random_hasher(f):
     """does the (normalised) callee name a std hash container without a fixed hasher parameter?"""
@@ -1824,6 +1858,11 @@ def m_default(it, ctx, a, m, f):
     if head == 'Box':
         inner = re.match(r'^Box<(.*)>$', ty).group(1)
         return m_default(it, ctx, [], None, '<%s as Default>::default' % inner)
+    if head in ('RefCell', 'Cell', 'Rc', 'Arc'):        # transparent wrappers in this interpreter
+        inner = re.match(r'^(?:[\w:]*::)?%s<(.*)>$' % head, ty).group(1)
+        return m_default(it, ctx, [], None, '<%s as Default>::default' % inner)
+    if head in ('HashSet', 'FnvHashSet', 'FxHashSet'):
+        return Adt('StdHashSet', None, [[]], ['items']) if head == 'HashSet' and _random_hasher(ty) else []
     if head in it.T.enums:
         if head == 'BlockStmtOrExpr':
             return Adt(head, 'BlockStmt', [m_default(it, ctx, [], None, '<BlockStmt as Default>::default')])
